@@ -224,13 +224,37 @@ RULE_AN = ("TLC enumerates ALL histories of advance(dt in {0,1,3})/set_state(s i
            "of length 40 and histories that start with one 2^24-tick advance followed by fine frames; every history is replayed on a real "
            "StateAnimatorBuilder animator at 2-3 tick scales (tick >= 1/8 s, the exact grid of Duration/as_secs_f32) and after EVERY call "
            "current_state, is_ended, current_values (exact terms), the internal clock and pause record (hook), bit-identity of current_values "
-           "across set_state, and bit-identity with a twin animator that receives the same time in a different partition are compared")
+           "across set_state, and bit-identity with a twin animator that receives the same time in a different partition are compared; leg B: "
+           "random configurations (random timelines per state) driven by random histories are logged from the real code and validated by TLC "
+           "(Trace_Animator), predicted value terms compared by the harness")
+
+
+def animator_legB(ctx, want_values=True):
+    """Leg B: random animator configurations and histories recorded from the real code, validated by TLC."""
+    tr = ctx.path("anim.ndjson")
+    st = run_harness(["drive-anim", ctx.seed, 60 if ctx.quick() else 1200, 60, tr])
+    ok, rej, _ = run_trace(ctx, "Trace_Animator", tr, timeout=3000)
+    ctx.traces += st["worlds"]
+    ctx.evaluations += st["events"]
+    ctx.extra["animator_trace"] = {k: st[k] for k in ("worlds", "events", "set_state_calls")}
+    for smp in st["samples"][:1]:
+        ctx.sample({"validated_event": smp})
+    if not ok:
+        ctx.violation("trace rejected: the real animator's state / is_ended / clock / pause record / no-jump is not a behaviour of Animator.tla",
+                      {"first_unmatched_record": rej})
+    elif want_values:
+        j = run_harness(["judge-anim", tr, ctx.path("trace-Trace_Animator.txt")])
+        ctx.extra["animator_trace"]["values_checked"] = j["values_checked"]
+        for m in j["first"]:
+            ctx.violation("current_values differ from the value terms predicted by Trace_Animator", m)
+    os.remove(tr)
 
 
 def animator_check(ctx, classes, label):
     mc_animator(ctx)
     rep = animator_legA(ctx)
     judge_replay(ctx, rep, lambda m: m.get("class") in classes, label)
+    animator_legB(ctx, want_values="vals" in classes)
     ctx.assumptions += ["times on the 1/8 s grid or coarser (Duration::from_secs_f32 / as_secs_f32 exact; beyond 2^24 ticks the spec rounds the clock to f32 like as_secs_f32)",
                         "keyframe positions per property are distinct in the configuration pool"]
     return "model_checking", RULE_AN
@@ -259,6 +283,7 @@ def c07(ctx):
     rep = animator_legA(ctx)
     judge_replay(ctx, rep, lambda m: m.get("class") == "ended" or (m.get("class") == "vals" and m.get("exp_ended") is True),
                  "is_ended differs from the specification, or values do not rest at the terminal values while ended")
+    animator_legB(ctx, want_values=False)
     return "model_checking", RULE_AN
 
 
@@ -474,7 +499,7 @@ def c13(ctx):
 def c14(ctx):
     run_tlc(ctx, "MC_Lerp", "MC_Lerp_quick.cfg", workers=8, subst={"Lo": 0, "Hi": 255})
     if not ctx.quick():
-        run_tlc(ctx, "MC_Lerp", "MC_Lerp_quick.cfg", workers=8, subst={"Lo": -128, "Hi": 127})
+        run_tlc(ctx, "MC_Lerp", "MC_Lerp_quick.cfg", workers=8, subst={"Lo": "<- LoSigned", "Hi": 127})
     tr = ctx.path("lerp.ndjson")
     st = run_harness(["drive-lerp", ctx.seed, "quick" if ctx.quick() else "full", tr], timeout=3000)
     ok, rej, _ = run_trace(ctx, "Trace_Lerp", tr, timeout=3000)
@@ -529,7 +554,7 @@ def rustc_rejects(ctx, files, deps_dir):
 
 @check("C15")
 def c15(ctx):
-    run = run_tlc(ctx, "MC_Grammar", "MC_Grammar.cfg", workers=4, subst={"NRand": 60 if ctx.quick() else 1200}, capture="gen-grammar.txt", timeout=3000)
+    run = run_tlc(ctx, "MC_Grammar", "MC_Grammar.cfg", workers=4, subst={"NRand": 60 if ctx.quick() else 400}, capture="gen-grammar.txt", timeout=3000)
     n = count_replay(run["out"])
     if n == 0:
         raise ToolError("grammar generator produced no sentences")
